@@ -51,6 +51,7 @@ func (e *Enc) call(ins ssa.Instruction, c *ssa.CallCommon, res *ssa.Call) {
 		argT = append(argT, a.Type())
 	}
 	sig := c.Signature()
+	e.sharedStateChecks(ins, c)
 
 	if b, ok := c.Value.(*ssa.Builtin); ok && !c.IsInvoke() {
 		e.builtin(ins, b, c, res, args)
@@ -875,5 +876,101 @@ func (e *Enc) havocUnionAt(h *Heap, writes map[string]bool, callees []*ssa.Funct
 		}
 		sort.Strings(except)
 		e.havocKeyFramed(h, k, apre, except)
+	}
+}
+
+// throughIface strips interface boxing.
+func throughIface(v ssa.Value) ssa.Value {
+	for {
+		switch x := v.(type) {
+		case *ssa.MakeInterface:
+			v = x.X
+		case *ssa.ChangeInterface:
+			v = x.X
+		case *ssa.ChangeType:
+			v = x.X
+		default:
+			return v
+		}
+	}
+}
+
+// sharedStateChecks (property C18):
+//  - a value loaded from a lock-guarded field (the map itself) may be handed to a call only while the lock is held;
+//  - an object reachable from a package-level variable must not be handed to code that may mutate it (outside package
+//    initialisers): receivers of interface methods other than Error/String, receivers of math/big mutators, pointer
+//    arguments a library callee writes through, pointer/interface arguments of unknown externals.
+func (e *Enc) sharedStateChecks(ins ssa.Instruction, c *ssa.CallCommon) {
+	if _, isB := c.Value.(*ssa.Builtin); isB {
+		return
+	}
+	isInit := e.fn.Name() == "init" && e.fn.Synthetic != ""
+	var argVals []ssa.Value
+	if c.IsInvoke() {
+		argVals = append(argVals, c.Value)
+	}
+	argVals = append(argVals, c.Args...)
+	callee := c.StaticCallee()
+	for i, a := range argVals {
+		root := throughIface(a)
+		// guarded map / pointer passed on
+		if la, ok := e.guardedValue(root); ok && (e.ct == nil || e.ct.Opts["constructor"] == "") {
+			held := app("select", e.heapGet(e.cur, "$lock", "Int"), la)
+			e.usedLock = true
+			e.oblige("lock", "arg:"+descOf(e.exprText(root, ins)), "", ins.Pos(), e.guardGoal(app(">=", held, "1")))
+		}
+		if isInit {
+			continue
+		}
+		ld, ok := root.(*ssa.UnOp)
+		if !ok || ld.Op != token.MUL {
+			continue
+		}
+		g, ok := ld.X.(*ssa.Global)
+		if !ok {
+			continue
+		}
+		switch under(g.Type().(*types.Pointer).Elem()).(type) {
+		case *types.Pointer, *types.Interface, *types.Map, *types.Slice:
+		default:
+			continue
+		}
+		mayMutate := false
+		switch {
+		case c.IsInvoke():
+			if i == 0 && c.Method.Name() != "Error" && c.Method.Name() != "String" {
+				mayMutate = true
+			}
+		case callee == nil:
+			mayMutate = true
+		default:
+			if we, isLib := e.w.WE[callee]; isLib {
+				for _, wc := range we {
+					if wc.params[i] {
+						mayMutate = true
+					}
+				}
+			} else {
+				n := callee.String()
+				pk := ""
+				if callee.Pkg != nil {
+					pk = callee.Pkg.Pkg.Path()
+				} else if callee.Object() != nil && callee.Object().Pkg() != nil {
+					pk = callee.Object().Pkg().Path()
+				}
+				switch {
+				case strings.HasPrefix(n, "(*math/big.Int)."):
+					ws := e.w.externalWrites(callee)
+					mayMutate = i == 0 && ws["$big"]
+				case pk == "fmt" || pk == "errors" || pk == "github.com/pkg/errors" || pk == "bytes" || pk == "strings" || pk == "encoding/hex" || pk == "regexp":
+					// read-only uses (a *regexp.Regexp is documented safe for concurrent use)
+				default:
+					mayMutate = true
+				}
+			}
+		}
+		if mayMutate {
+			e.oblige("globalshare", descOf(g.Name()), "", ins.Pos(), not(e.reach[e.curBlock]))
+		}
 	}
 }
